@@ -378,6 +378,10 @@ def judge_design(c, b, drv, per_valid, cap):
                 continue
             for name, fa in b.schema.fields(m["payload"]):
                 sub = c04.sub_att(b.schema, m["payload"], [name])
+                if locs.get(name) in ("header", "cookie") and b.schema.resolve(fa).get("has_default"):
+                    # openapi/v3/parameters.go: a header or cookie parameter is required iff the attribute is required and has NO default
+                    # (IsRequiredNoDefault); the server fills the default in, so for the design the absent value is valid as well
+                    sub = dict(sub, required=[])
                 subv = {name: v[name]} if name in v and v[name] is not None else {}
                 try:
                     at, vt = c04.enc_att(b.schema, sub, [subv]), c04.enc_val(b.schema, sub, subv)
